@@ -35,9 +35,18 @@ use vls_persist::kvv::memory::MemoryKVVStore;
 use vls_persist::kvv::{JsonFormat, KVVPersister};
 use lightning_signer::policy::filter::{FilterResult, FilterRule, PolicyFilter};
 use lightning_signer::policy::simple_validator::{make_default_simple_policy, SimpleValidatorFactory};
-use lightning_signer::tx::tx::HTLCInfo2;
+use lightning_signer::tx::tx::{CommitmentInfo2, HTLCInfo2};
 use lightning_signer::util::test_utils::key::{make_test_counterparty_points, make_test_pubkey};
 use lightning_signer::util::test_utils::*;
+use lightning_signer::bitcoin::blockdata::constants::genesis_block;
+use lightning_signer::bitcoin::psbt::Psbt;
+use lightning_signer::lightning::ln::chan_utils::{ChannelPublicKeys, TxCreationKeys};
+use lightning_signer::lightning::ln::channel_keys::{DelayedPaymentBasepoint, HtlcBasepoint, RevocationBasepoint};
+use vls_protocol::model::{Basepoints, Bip32KeyVersion, Htlc as WireHtlc, PubKey, Sha256 as WireSha256};
+use vls_protocol::msgs::{self, Message as WireMsg};
+use vls_protocol::psbt::PsbtWrapper;
+use vls_protocol::serde_bolt::{Array, Octets, WithSize};
+use vls_protocol_signer::handler::{Error as HandlerError, Handler, HandlerBuilder, RootHandler};
 use std::collections::BTreeMap;
 use std::panic::{catch_unwind, AssertUnwindSafe};
 use std::sync::Arc;
@@ -54,6 +63,8 @@ struct SetupD {
     /// 0 default policy (+ safe-type demoted), 1 lenient, 2 lenient + `policy-commitment` demoted
     mode: u8,
     point: u8,
+    /// the channel is set up and signed for through the protocol handler (wire messages), not through vls-core
+    via: bool,
 }
 
 #[derive(Clone, Debug, PartialEq)]
@@ -135,6 +146,106 @@ struct Live {
     node: Arc<Node>,
     id: ChannelId,
     persister: Arc<dyn Persist>,
+    /// the holder's channel public keys as the harness learnt them (from `GetChannelBasepoints` in handler mode)
+    holder: ChannelPublicKeys,
+    /// handler mode: the root handler the node lives in
+    root: Option<RootHandler>,
+}
+
+const WIRE_DBID: u64 = 1;
+fn wire_peer() -> [u8; 33] { make_test_pubkey(50).serialize() }
+
+/// channel_type as it goes over the wire (CLN encoding of the BOLT-9 bits, written out by hand:
+/// option_static_remotekey = bit 12, option_anchor_outputs = bit 20, option_anchors_zero_fee_htlc_tx = bit 22)
+fn wire_channel_type(ctype: char) -> Vec<u8> {
+    match ctype {
+        'l' => vec![],
+        's' => vec![0x10, 0x00],
+        'a' => vec![0x10, 0x10, 0x00],
+        _ => vec![0x40, 0x10, 0x00],
+    }
+}
+
+fn wire_pk(p: &PublicKey) -> PubKey { PubKey(p.serialize()) }
+
+fn build_root(persister: Arc<dyn Persist>, mode: u8) -> Result<RootHandler, String> {
+    let network = Network::Testnet;
+    let mut init = HandlerBuilder::new(network, 0, services(persister, mode), node_seed()).build().map_err(|e| format!("handler build: {:?}", e))?;
+    init.handle(WireMsg::HsmdInit(msgs::HsmdInit {
+        key_version: Bip32KeyVersion { pubkey_version: 0x0488b21e, privkey_version: 0x0488ade4 },
+        chain_params: genesis_block(network).block_hash(),
+        encryption_key: None,
+        dev_privkey: None,
+        dev_bip32_seed: None,
+        dev_channel_secrets: None,
+        dev_channel_secrets_shaseed: None,
+        hsm_wire_min_version: msgs::MIN_PROTOCOL_VERSION,
+        hsm_wire_max_version: msgs::DEFAULT_MAX_PROTOCOL_VERSION,
+    })).map_err(|e| format!("hsmd init: {:?}", e))?;
+    Ok(init.into())
+}
+
+fn handler_err(e: HandlerError) -> String {
+    match e {
+        HandlerError::Signing(s) | HandlerError::Temporary(s) => s.message().to_string(),
+        other => format!("{:?}", other),
+    }
+}
+
+/// Handler mode: HsmdInit, NewChannel, GetChannelBasepoints, SetupChannel with the negotiated values on the wire.
+fn fresh_base_wire(sd: &SetupD, c: &ContentD) -> Result<Live, String> {
+    let persister: Arc<dyn Persist> = Arc::new(KVVPersister(MemoryKVVStore::new([7u8; 16]), JsonFormat));
+    let root = build_root(persister.clone(), sd.mode)?;
+    let peer = wire_peer();
+    root.handle(WireMsg::NewChannel(msgs::NewChannel { peer_id: PubKey(peer), dbid: WIRE_DBID })).map_err(|e| format!("new channel: {}", handler_err(e)))?;
+    let reply = root.handle(WireMsg::GetChannelBasepoints(msgs::GetChannelBasepoints { node_id: PubKey(peer), dbid: WIRE_DBID })).map_err(|e| format!("basepoints: {}", handler_err(e)))?;
+    let bp = reply.as_any().downcast_ref::<msgs::GetChannelBasepointsReply>().ok_or("GetChannelBasepointsReply")?;
+    let pk = |p: &PubKey| PublicKey::from_slice(&p.0).map_err(|e| format!("pubkey: {}", e));
+    let holder = ChannelPublicKeys {
+        funding_pubkey: pk(&bp.funding)?,
+        revocation_basepoint: RevocationBasepoint(pk(&bp.basepoints.revocation)?),
+        payment_point: pk(&bp.basepoints.payment)?,
+        delayed_payment_basepoint: DelayedPaymentBasepoint(pk(&bp.basepoints.delayed_payment)?),
+        htlc_basepoint: HtlcBasepoint(pk(&bp.basepoints.htlc)?),
+    };
+    let cp = make_test_counterparty_points();
+    let chan = root.for_new_client(1, PubKey(peer), WIRE_DBID);
+    chan.handle(WireMsg::SetupChannel(msgs::SetupChannel {
+        is_outbound: sd.outbound,
+        channel_value: sd.chan_value,
+        push_value: 0,
+        funding_txid: Txid::from_slice(&txid_bytes(sd.txid as i64)).unwrap(),
+        funding_txout: sd.vout as u16,
+        to_self_delay: sd.holder_delay,
+        local_shutdown_script: Octets(vec![]),
+        local_shutdown_wallet_index: None,
+        remote_basepoints: Basepoints {
+            revocation: wire_pk(&cp.revocation_basepoint.0),
+            payment: wire_pk(&cp.payment_point),
+            htlc: wire_pk(&cp.htlc_basepoint.0),
+            delayed_payment: wire_pk(&cp.delayed_payment_basepoint.0),
+        },
+        remote_funding_pubkey: wire_pk(&cp.funding_pubkey),
+        remote_to_self_delay: sd.cp_delay,
+        remote_shutdown_script: Octets(vec![]),
+        channel_type: Octets(wire_channel_type(sd.ctype)),
+    })).map_err(|e| format!("setup_channel: {}", handler_err(e)))?;
+    let node = root.node().clone();
+    let id = ChannelId::new_from_peer_id_and_oid(&peer, WIRE_DBID);
+    add_keysends(&node, c);
+    Ok(Live { node, id, persister, holder, root: Some(root) })
+}
+
+/// outgoing payments (HTLCs the counterparty receives) need an approved invoice / keysend
+fn add_keysends(node: &Arc<Node>, c: &ContentD) {
+    let mut per_hash: BTreeMap<i64, u64> = BTreeMap::new();
+    for h in c.htlcs.iter().filter(|h| !h.0) {
+        let e = per_hash.entry(h.2).or_insert(0);
+        *e = e.saturating_add(h.1.saturating_mul(1000));
+    }
+    for (h, msat) in per_hash {
+        let _ = node.add_keysend(make_test_pubkey(1), PaymentHash(payment_hash_bytes(h)), msat);
+    }
 }
 
 fn node_seed() -> [u8; 32] {
@@ -155,24 +266,18 @@ fn services(persister: Arc<dyn Persist>, mode: u8) -> NodeServices {
 
 /// A fresh node with a real persister (KVVPersister over a memory store) and a ready channel.
 fn fresh_base(sd: &SetupD, c: &ContentD) -> Result<Live, String> {
+    if sd.via { return fresh_base_wire(sd, c); }
     let persister: Arc<dyn Persist> = Arc::new(KVVPersister(MemoryKVVStore::new([7u8; 16]), JsonFormat));
     let node = Arc::new(Node::new(TEST_NODE_CONFIG, &node_seed(), vec![], services(persister.clone(), sd.mode)));
     persister.new_node(&node.get_id(), &TEST_NODE_CONFIG, &*node.get_state()).map_err(|e| format!("new_node: {:?}", e))?;
     persister.new_tracker(&node.get_id(), &node.get_tracker()).map_err(|e| format!("new_tracker: {:?}", e))?;
     node.add_allowlist(&[]).map_err(|e| format!("allowlist: {}", e.message()))?;
-    let (id, _) = node.new_channel(1, &[2u8; 33], &node).map_err(|e| format!("new_channel: {:?}", e))?;
+    let (id, _) = node.new_channel(WIRE_DBID, &wire_peer(), &node).map_err(|e| format!("new_channel: {:?}", e))?;
     node.setup_channel(id.clone(), None, make_setup(sd), &DerivationPath::master())
         .map_err(|e| format!("setup_channel: {}", e.message()))?;
-    // outgoing payments (HTLCs the counterparty receives) need an approved invoice / keysend
-    let mut per_hash: BTreeMap<i64, u64> = BTreeMap::new();
-    for h in c.htlcs.iter().filter(|h| !h.0) {
-        let e = per_hash.entry(h.2).or_insert(0);
-        *e = e.saturating_add(h.1.saturating_mul(1000));
-    }
-    for (h, msat) in per_hash {
-        let _ = node.add_keysend(make_test_pubkey(1), PaymentHash(payment_hash_bytes(h)), msat);
-    }
-    Ok(Live { node, id, persister })
+    add_keysends(&node, c);
+    let holder = node.with_channel(&id, |chan| Ok(chan.keys.pubkeys().clone())).map_err(|e| format!("pubkeys: {}", e.message()))?;
+    Ok(Live { node, id, persister, holder, root: None })
 }
 
 /// put the channel in the state "about to sign counterparty commitment `commit_num`" (in-memory test
@@ -197,18 +302,31 @@ fn fresh(sd: &SetupD, c: &ContentD) -> Result<Live, String> {
 
 /// Restart: drop the node and rebuild it from what the persister holds (`Node::restore_node`).
 fn restore(live: Live, sd: &SetupD, c: &ContentD) -> Result<Live, String> {
-    let Live { node, id, persister } = live;
+    let Live { node, id, persister, holder, root } = live;
+    let via = root.is_some();
+    drop(root);
     drop(node);
-    let (node_id, entry) = persister.get_nodes().map_err(|e| format!("get_nodes: {:?}", e))?.into_iter().next().ok_or("no node persisted")?;
-    let node = Node::restore_node(&node_id, entry, &node_seed(), services(persister.clone(), sd.mode))
-        .map_err(|e| format!("restore_node: {}", e.message()))?;
-    let live = Live { node, id, persister };
+    let live = if via {
+        // handler mode: a new handler over the same store restores the node (HandlerBuilder::build)
+        let root = build_root(persister.clone(), sd.mode)?;
+        let node = root.node().clone();
+        Live { node, id, persister, holder, root: Some(root) }
+    } else {
+        let (node_id, entry) = persister.get_nodes().map_err(|e| format!("get_nodes: {:?}", e))?.into_iter().next().ok_or("no node persisted")?;
+        let node = Node::restore_node(&node_id, entry, &node_seed(), services(persister.clone(), sd.mode))
+            .map_err(|e| format!("restore_node: {}", e.message()))?;
+        Live { node, id, persister, holder, root: None }
+    };
     arm(&live, c)?;
     Ok(live)
 }
 
-fn key_tab(chan: &Channel, point: &PublicKey) -> KeyTab {
-    let k = chan.make_counterparty_tx_keys(point);
+/// The keys of one counterparty commitment, derived (LDK's `TxCreationKeys::derive_new`, key derivation is
+/// trusted) from the basepoints the harness itself put on / read off the wire — not from the channel object.
+fn key_tab(holder: &ChannelPublicKeys, point: &PublicKey) -> KeyTab {
+    let cp = make_test_counterparty_points();
+    let secp = Secp256k1::new();
+    let k = TxCreationKeys::derive_new(&secp, point, &cp.delayed_payment_basepoint, &cp.htlc_basepoint, &holder.revocation_basepoint, &holder.htlc_basepoint);
     let z = [0u8; 33];
     KeyTab {
         role: vec![
@@ -217,19 +335,19 @@ fn key_tab(chan: &Channel, point: &PublicKey) -> KeyTab {
             k.broadcaster_delayed_payment_key.to_public_key().serialize(),
             k.broadcaster_htlc_key.to_public_key().serialize(),
             k.countersignatory_htlc_key.to_public_key().serialize(),
-            chan.keys.pubkeys().payment_point.serialize(),
-            chan.setup.counterparty_points.funding_pubkey.serialize(),
-            chan.keys.pubkeys().funding_pubkey.serialize(),
+            holder.payment_point.serialize(),
+            cp.funding_pubkey.serialize(),
+            holder.funding_pubkey.serialize(),
         ],
     }
 }
 
 /// obscure factor, computed by the harness itself: SHA-256(funder payment basepoint ‖ fundee's), low 48 bits
-fn obscure_factor(chan: &Channel) -> u64 {
-    let holder = chan.keys.pubkeys().payment_point.serialize();
-    let cp = chan.setup.counterparty_points.payment_point.serialize();
+fn obscure_factor(holder: &ChannelPublicKeys, outbound: bool) -> u64 {
+    let holder = holder.payment_point.serialize();
+    let cp = make_test_counterparty_points().payment_point.serialize();
     let mut d = Vec::new();
-    if chan.setup.is_outbound {
+    if outbound {
         d.extend_from_slice(&holder);
         d.extend_from_slice(&cp);
     } else {
@@ -270,6 +388,8 @@ struct Base {
     /// per output: the HTLC (index into content.htlcs) it carries
     htlc_of: Vec<Option<usize>>,
     bytes: Vec<u8>,
+    /// the commitment the harness itself builds from the negotiated (wire) values, serialised
+    own: Option<Vec<u8>>,
 }
 
 /// Render a real transaction into the structured form.
@@ -366,6 +486,34 @@ fn structure_deviation(sd: &SetupD, c: &ContentD, kt: &KeyTab, obscure: u64, tx:
     None
 }
 
+/// The BOLT-3 commitment the harness builds itself from the negotiated values (same rules as
+/// `structure_deviation`), serialised with the harness' own serializer.
+fn own_canonical_bytes(sd: &SetupD, c: &ContentD, kt: &KeyTab, obscure: u64) -> Option<Vec<u8>> {
+    if c.commit_num >= (1u64 << 48) { return None; }
+    let obs = obscure ^ c.commit_num;
+    let z = ldk_anchors(sd.ctype);
+    let n = c.htlcs.len();
+    let mut exp: Vec<(u64, Vec<u8>)> = Vec::new();
+    if c.to_cs > 0 { exp.push((c.to_cs, spk_bytes(&if z { Spk::Wsh(Tpl::RemoteA(5)) } else { Spk::Wpkh(5) }, kt))); }
+    if c.to_bc > 0 { exp.push((c.to_bc, spk_bytes(&Spk::Wsh(Tpl::Local { rev: 1, delay: sd.holder_delay as i64, delayed: 2 }), kt))); }
+    if z && (c.to_bc > 0 || n > 0) { exp.push((330, spk_bytes(&Spk::Wsh(Tpl::Anchor(6)), kt))); }
+    if z && (c.to_cs > 0 || n > 0) { exp.push((330, spk_bytes(&Spk::Wsh(Tpl::Anchor(7)), kt))); }
+    for h in &c.htlcs {
+        let t = if h.0 { Tpl::Off { csv: z, rev: 1, k1: 4, k2: 3, hash: h.2, hashlen: 20 } }
+                else { Tpl::Recv { csv: z, rev: 1, k1: 4, hash: h.2, hashlen: 20, k2: 3, cltv: h.3 as i64 } };
+        exp.push((h.1, spk_bytes(&Spk::Wsh(t), kt)));
+    }
+    exp.sort();
+    let stx = STx {
+        version: 2,
+        locktime: 0x2000_0000u32 | (obs & 0xff_ffff) as u32,
+        // above u16 only the truncation the code performs is known (BOLT-2 limits the index to u16)
+        inputs: vec![SIn { txid: sd.txid as i64, vout: sd.vout % 65536, sequence: 0x8000_0000u32 | (obs >> 24) as u32, script_sig: false, witness: false }],
+        outs: exp.into_iter().map(|(v, b)| SOut { value: v, spk: Spk::Raw(b) }).collect(),
+    };
+    Some(serialize(&stx, kt))
+}
+
 fn htlc_weight(sd: &SetupD, offered: bool) -> u64 {
     match (offered, ldk_anchors(sd.ctype)) { (true, true) => 666, (true, false) => 663, (false, true) => 706, (false, false) => 703 }
 }
@@ -440,8 +588,8 @@ fn ldk_tx(live: &Live, sd: &SetupD, c: &ContentD) -> Result<(Transaction, KeyTab
     let c2 = c.clone();
     let r = catch_unwind(AssertUnwindSafe(|| {
         live.node.with_channel(&live.id, |chan| {
-            let kt = key_tab(chan, &point);
-            let obs = obscure_factor(chan);
+            let kt = key_tab(&live.holder, &point);
+            let obs = obscure_factor(&live.holder, sd.outbound);
             let htlcs = Channel::htlcs_info2_to_oic(&off, &recv);
             let ctx = chan.make_counterparty_commitment_tx(&point, c2.commit_num, c2.feerate, c2.to_cs, c2.to_bc, htlcs);
             Ok((ctx.trust().built_transaction().transaction.clone(), kt, obs))
@@ -456,7 +604,7 @@ fn ldk_tx(live: &Live, sd: &SetupD, c: &ContentD) -> Result<(Transaction, KeyTab
 
 fn keys_only(live: &Live, sd: &SetupD) -> (KeyTab, u64) {
     let point = make_test_pubkey(sd.point);
-    live.node.with_channel(&live.id, |chan| Ok((key_tab(chan, &point), obscure_factor(chan)))).unwrap()
+    (key_tab(&live.holder, &point), obscure_factor(&live.holder, sd.outbound))
 }
 
 #[derive(Clone, Copy, PartialEq, Debug)]
@@ -467,8 +615,46 @@ impl Pol {
 
 enum P2Res { Ok(Signature, Vec<Signature>), Err(String), Panic }
 
+/// HTLCs as they go over the wire: side LOCAL = offered by the holder (the counterparty receives it), amounts in msat
+fn wire_htlcs(c: &ContentD) -> Vec<WireHtlc> {
+    c.htlcs.iter().map(|h| WireHtlc {
+        side: if h.0 { WireHtlc::REMOTE } else { WireHtlc::LOCAL },
+        amount: h.1.saturating_mul(1000),
+        payment_hash: WireSha256(payment_hash_bytes(h.2)),
+        ctlv_expiry: h.3,
+    }).collect()
+}
+
+fn sig_of(b: &[u8; 64]) -> Option<Signature> { Signature::from_compact(b).ok() }
+
 fn real_p2(live: &Live, sd: &SetupD, c: &ContentD) -> P2Res {
     let point = make_test_pubkey(sd.point);
+    if let Some(root) = &live.root {
+        // through the handler: SignRemoteCommitmentTx2
+        let r = catch_unwind(AssertUnwindSafe(|| {
+            let chan = root.for_new_client(1, PubKey(wire_peer()), WIRE_DBID);
+            chan.handle(WireMsg::SignRemoteCommitmentTx2(msgs::SignRemoteCommitmentTx2 {
+                remote_per_commitment_point: wire_pk(&point),
+                commitment_number: c.commit_num,
+                feerate: c.feerate,
+                to_local_value_sat: c.to_cs,
+                to_remote_value_sat: c.to_bc,
+                htlcs: Array(wire_htlcs(c)),
+            }))
+        }));
+        return match r {
+            Err(_) => P2Res::Panic,
+            Ok(Err(e)) => P2Res::Err(handler_err(e)),
+            Ok(Ok(reply)) => match reply.as_any().downcast_ref::<msgs::SignCommitmentTxWithHtlcsReply>() {
+                None => P2Res::Err("unexpected reply".into()),
+                Some(rep) => {
+                    let sig = sig_of(&rep.signature.signature.0);
+                    let hs: Option<Vec<Signature>> = rep.htlc_signatures.0.iter().map(|s| sig_of(&s.signature.0)).collect();
+                    match (sig, hs) { (Some(s), Some(h)) => P2Res::Ok(s, h), _ => P2Res::Err("undecodable signature in reply".into()) }
+                }
+            },
+        };
+    }
     let (off, recv) = c.lists();
     let r = catch_unwind(AssertUnwindSafe(|| {
         live.node.with_channel(&live.id, |chan| {
@@ -493,12 +679,53 @@ fn pol_of(sd: &SetupD, c: &ContentD) -> Pol {
     }
 }
 
-enum P1Res { Ok(Signature, u64, u64, Vec<u8>), Err(String), Panic }
+enum P1Res { Ok(Signature, u64, u64, Vec<u8>, CommitmentInfo2), Err(String), Panic }
 
 /// real phase 1 on (tx bytes, witness scripts); on acceptance also returns the balances the signer
 /// recorded as validated and the canonical LDK bytes of that recorded content
 fn real_p1(live: &Live, sd: &SetupD, c: &ContentD, tx: &Transaction, ws: &[Vec<u8>]) -> P1Res {
     let point = make_test_pubkey(sd.point);
+    if let Some(root) = &live.root {
+        // through the handler (SignRemoteCommitmentTx: tx + PSBT carrying the witness scripts) whenever the request
+        // can be expressed on the wire (one witness script per output, unsigned transaction)
+        if ws.len() == tx.output.len() {
+            if let Ok(mut psbt) = Psbt::from_unsigned_tx(tx.clone()) {
+                for (o, w) in psbt.outputs.iter_mut().zip(ws.iter()) {
+                    if !w.is_empty() { o.witness_script = Some(ScriptBuf::from(w.clone())); }
+                }
+                let r = catch_unwind(AssertUnwindSafe(|| {
+                    let chan = root.for_new_client(1, PubKey(wire_peer()), WIRE_DBID);
+                    chan.handle(WireMsg::SignRemoteCommitmentTx(msgs::SignRemoteCommitmentTx {
+                        tx: WithSize(tx.clone()),
+                        psbt: WithSize(PsbtWrapper { inner: psbt }),
+                        remote_funding_key: wire_pk(&make_test_counterparty_points().funding_pubkey),
+                        remote_per_commitment_point: wire_pk(&point),
+                        option_static_remotekey: sd.ctype != 'l',
+                        commitment_number: c.commit_num,
+                        htlcs: Array(wire_htlcs(c)),
+                        feerate: c.feerate,
+                    }))
+                }));
+                return match r {
+                    Err(_) => P1Res::Panic,
+                    Ok(Err(e)) => P1Res::Err(handler_err(e)),
+                    Ok(Ok(reply)) => match reply.as_any().downcast_ref::<msgs::SignTxReply>().and_then(|rep| sig_of(&rep.signature.signature.0)) {
+                        None => P1Res::Err("unexpected reply".into()),
+                        Some(sig) => {
+                            // what the signer recorded as validated, and the canonical tx of that
+                            let rec = catch_unwind(AssertUnwindSafe(|| live.node.with_channel(&live.id, |chan| {
+                                let info = chan.enforcement_state.current_counterparty_commit_info.clone().expect("recorded info");
+                                let htlcs = Channel::htlcs_info2_to_oic(&info.offered_htlcs, &info.received_htlcs);
+                                let ctx = chan.make_counterparty_commitment_tx(&point, c.commit_num, info.feerate_per_kw, info.to_countersigner_value_sat, info.to_broadcaster_value_sat, htlcs);
+                                Ok((info.to_countersigner_value_sat, info.to_broadcaster_value_sat, cons_serialize(&ctx.trust().built_transaction().transaction), info))
+                            })));
+                            match rec { Ok(Ok((a, b, bytes, info))) => P1Res::Ok(sig, a, b, bytes, info), _ => P1Res::Err("no recorded info".into()) }
+                        }
+                    },
+                };
+            }
+        }
+    }
     let (off, recv) = c.lists();
     let r = catch_unwind(AssertUnwindSafe(|| {
         live.node.with_channel(&live.id, |chan| {
@@ -507,11 +734,11 @@ fn real_p1(live: &Live, sd: &SetupD, c: &ContentD, tx: &Transaction, ws: &[Vec<u
             let htlcs = Channel::htlcs_info2_to_oic(&info.offered_htlcs, &info.received_htlcs);
             let ctx = chan.make_counterparty_commitment_tx(&point, c.commit_num, info.feerate_per_kw, info.to_countersigner_value_sat, info.to_broadcaster_value_sat, htlcs);
             let bytes = cons_serialize(&ctx.trust().built_transaction().transaction);
-            Ok((sig, info.to_countersigner_value_sat, info.to_broadcaster_value_sat, bytes))
+            Ok((sig, info.to_countersigner_value_sat, info.to_broadcaster_value_sat, bytes, info))
         })
     }));
     match r {
-        Ok(Ok((s, a, b, bytes))) => P1Res::Ok(s, a, b, bytes),
+        Ok(Ok((s, a, b, bytes, info))) => P1Res::Ok(s, a, b, bytes, info),
         Ok(Err(e)) => P1Res::Err(e.message().to_string()),
         Err(_) => P1Res::Panic,
     }
@@ -623,8 +850,19 @@ impl C04 {
         let live = match cx.live() { Ok(l) => l, Err(e) => { co.tags.insert("p1:no-channel".into()); return format!("reject # {}", e).split(" #").next().unwrap().to_string() } };
         let res = real_p1(live, &sd, &c, tx, ws);
         match res {
-            P1Res::Ok(sig, cs, bc, canon_bytes) => {
+            P1Res::Ok(sig, cs, bc, canon_bytes, info) => {
                 cx.live = None;
+                // what phase 1 recorded as validated: the HTLCs and the feerate of the request (balances come from the tx)
+                {
+                    let key = |h: &HTLCInfo2| (h.value_sat, h.payment_hash.0, h.cltv_expiry);
+                    let (mut eo, mut er) = c.lists();
+                    eo.sort_by_key(key); er.sort_by_key(key);
+                    let (mut ro, mut rr) = (info.offered_htlcs.clone(), info.received_htlcs.clone());
+                    ro.sort_by_key(key); rr.sort_by_key(key);
+                    if !(info.is_counterparty_broadcaster && info.feerate_per_kw == c.feerate && ro == eo && rr == er) {
+                        co.violations.push(Violation { kind: "validated-content-differs".into(), desc: format!("phase 1 was asked to sign with feerate {} and {} HTLCs but validated/recorded {:?}", c.feerate, c.htlcs.len(), info), at });
+                    }
+                }
                 co.tags.insert(format!("p1:accept:{}", label));
                 // every witness script phase 1 accepted must be the one the output commits to
                 if ws.len() != tx.output.len() {
@@ -693,7 +931,10 @@ impl Group for C04 {
     fn property(&self) -> &'static str { "C04" }
     fn model(&self) -> Option<&'static str> { Some("bolt3") }
     fn rule(&self) -> &'static str {
-        "restarts through a real persister (KVVPersister<MemoryKVVStore>) + Node::restore_node before the first signing request, \
+        "a third of the channels are set up through the protocol handler (HsmdInit, NewChannel, GetChannelBasepoints, SetupChannel with the \
+         negotiated values on the wire) and signed for through SignRemoteCommitmentTx2 / SignRemoteCommitmentTx (tx + PSBT), the oracle \
+         (keys, obscure factor, BOLT-3 structure, sighash amount) being built from the wire values; \
+         restarts through a real persister (KVVPersister<MemoryKVVStore>) + Node::restore_node before the first signing request, \
          between phase 2 and phase 1 (the restored node re-signs the same commitment) and between mutations; \
          random channel setups (Legacy/StaticRemoteKey/Anchors/AnchorsZeroFeeHtlc, inbound/outbound, delays incl. 2016/2017, funding \
          outpoint incl. vout>=65536, policy default/lenient/policy-commitment demoted) and counterparty commitment contents (0-30 HTLCs \
@@ -712,8 +953,8 @@ impl Group for C04 {
     fn corpus(&self) -> Vec<Vec<String>> {
         // the repository's own scenario (sign_commitment_tx_with_mutators_setup), static and anchors
         let mut v = Vec::new();
-        for (t, mode) in [('s', 0u8), ('z', 0), ('a', 1), ('l', 0)] {
-            let sd = SetupD { ctype: t, outbound: true, holder_delay: 6, cp_delay: 7, txid: 2, vout: 0, chan_value: 3_000_000, mode, point: 10 };
+        for (t, mode, via) in [('s', 0u8, false), ('z', 0, false), ('a', 1, false), ('l', 0, false), ('s', 0, true), ('z', 0, true)] {
+            let sd = SetupD { ctype: t, outbound: !via, holder_delay: 6, cp_delay: 7, txid: 2, vout: 0, chan_value: 3_000_000, mode, point: 10, via };
             let c = ContentD { commit_num: 23, feerate: 0, to_cs: 1_000_000, to_bc: 1_979_997 - if t == 'z' { 660 } else { 0 },
                 htlcs: vec![(true, 4000, 1, 2 << 16), (false, 5000, 3, 3 << 16), (false, 10_003, 5, 4 << 16)] };
             if let Some(ops) = build_case(&sd, &c, &mut Rng::new(7), Tier::Quick) { v.push(ops); }
@@ -727,7 +968,7 @@ impl Group for C04 {
                 return ops;
             }
         }
-        vec!["setup s 1 6 7 2 0 3000000 0 1 0 10".into()]
+        vec!["setup s 1 6 7 2 0 3000000 0 1 0 10 0".into()]
     }
     fn exec_case(&self, ops: &[String]) -> CaseOut {
         let mut co = CaseOut::default();
@@ -744,10 +985,12 @@ impl Group for C04 {
                 "setup" => {
                     let (ctype, outbound, hd, cd, txid, vout, cv) = parse_setup(&t).expect("setup");
                     if t.len() >= 12 { mode = t[10].parse().unwrap(); point = t[11].parse().unwrap(); }
-                    cx.sd = Some(SetupD { ctype, outbound, holder_delay: hd, cp_delay: cd, txid, vout, chan_value: cv, mode, point });
+                    let via = t.len() >= 13 && t[12] == "1";
+                    cx.sd = Some(SetupD { ctype, outbound, holder_delay: hd, cp_delay: cd, txid, vout, chan_value: cv, mode, point, via });
                     cx.c = None; cx.base = None; cx.live = None; cx.p2 = None; cx.kept = None; cx.restart_next = false;
                     co.tags.insert(format!("type:{}", ctype));
                     co.tags.insert(format!("mode:{}", mode));
+                    co.tags.insert(format!("via:{}", if via { "handler" } else { "core" }));
                     "ok".into()
                 }
                 "content" if !saw_keys => "no-keys".into(),
@@ -757,7 +1000,13 @@ impl Group for C04 {
                     cx.c = Some(c.clone()); cx.base = None; cx.live = None; cx.p2 = None; cx.kept = None; cx.restart_next = false;
                     co.tags.insert(format!("htlcs:{}", match c.htlcs.len() { 0 => "0", 1..=5 => "1-5", 6..=15 => "6-15", _ => "16-30" }));
                     match cx.live() {
-                        Err(e) => { co.tags.insert("content:no-channel".into()); format!("no-channel {}", e) }
+                        Err(e) => {
+                            co.tags.insert("content:no-channel".into());
+                            if sd.via && fresh(&SetupD { via: false, ..sd.clone() }, &c).is_ok() {
+                                co.violations.push(Violation { kind: "handler-setup-differs".into(), desc: format!("the protocol handler refuses to set up a channel that vls-core sets up from the same negotiated values: {}", e), at: i });
+                            }
+                            format!("no-channel {}", e)
+                        }
                         Ok(live) => match ldk_tx(live, &sd, &c) {
                             Err(e) => { cx.live = None; if e == "panic" { co.tags.insert("content:panic".into()); "panic".into() } else { e } }
                             Ok((tx, kt, obs)) => {
@@ -774,7 +1023,8 @@ impl Group for C04 {
                                 let hs: Vec<String> = hf.iter().map(|f| format!("{}:{}:{}:{}:{}", f.0, f.1, f.2, f.3.map(|v| v.to_string()).unwrap_or("x".into()), if f.4 { 1 } else { 0 })).collect();
                                 // … and LDK's real serialised bytes, compared with the Lean `ser (canon c)`
                                 let line = format!("{} | {} | {}", show_tx_head(&stx), hs.join(" "), hex::encode(&ldk_bytes));
-                                cx.base = Some(Base { kt, stx, ws, htlc_of, bytes: ldk_bytes });
+                                let own_bytes = own_canonical_bytes(&sd, &c, &kt, obs);
+                                cx.base = Some(Base { kt, stx, ws, htlc_of, bytes: ldk_bytes, own: own_bytes });
                                 line
                             }
                         },
@@ -796,10 +1046,17 @@ impl Group for C04 {
                         Ok(live) => { let r2 = real_p2(&live, &sd, &c); match r2 {
                             P2Res::Ok(sig, hsigs) => {
                                 co.tags.insert("p2:accept".into());
+                                if sd.via { co.tags.insert("p2:accept:via-handler".into()); }
                                 cx.p2 = Some(Some(sig));
                                 if let Some(b) = &cx.base {
                                     if !verify_commit_sig(&b.kt, sd.chan_value, &serialize(&b.stx, &b.kt), &sig) {
                                         co.violations.push(Violation { kind: "sig-not-canonical".into(), desc: "phase-2 signature does not verify under the funding key against the canonical transaction".into(), at: i });
+                                    }
+                                    // … and against the commitment the harness builds itself from the negotiated (wire) values
+                                    if let Some(own) = &b.own {
+                                        if !verify_commit_sig(&b.kt, sd.chan_value, own, &sig) {
+                                            co.violations.push(Violation { kind: "sig-not-canonical".into(), desc: format!("phase-2 signature does not verify against the BOLT-3 transaction built from the negotiated values (delays {}/{}, outbound {}, value {}, vout {}, type {}, via handler {})", sd.holder_delay, sd.cp_delay, sd.outbound, sd.chan_value, sd.vout, sd.ctype, sd.via), at: i });
+                                        }
                                     }
                                     let hf = htlc_tx_fields(&sd, &c, &b.htlc_of);
                                     if hf.len() != hsigs.len() {
@@ -883,7 +1140,7 @@ impl Group for C04 {
                             let wsb: Vec<Vec<u8>> = b.ws.iter().map(|w| w.as_ref().map(|t| script_bytes(t, &b.kt)).unwrap_or_default()).collect();
                             let tx: Transaction = deserialize(&b.bytes).expect("canonical bytes");
                             match real_p1(&live, &sd, &c, &tx, &wsb) {
-                                P1Res::Ok(sig, _, _, canon_bytes) => {
+                                P1Res::Ok(sig, _, _, canon_bytes, _) => {
                                     co.tags.insert("p1retry:accept".into());
                                     if sig != s2 {
                                         co.violations.push(Violation { kind: "phase-sig-differs".into(), desc: "after a restart phase-1(canon) returns a signature different from the one phase 2 returned before the restart".into(), at: i });
@@ -977,11 +1234,14 @@ fn gen_setup_content(rng: &mut Rng) -> (SetupD, ContentD) {
     let holder_delay = delay(rng, mode >= 1);
     let cp_delay = if rng.chance(1, 4) { holder_delay } else { delay(rng, mode >= 1) };
     let chan_value = match rng.below(5) { 0 => 3_000_000, 1 => rng.range(100_000, 1_000_000), 2 => 1_000_000_000, _ => rng.range(1_000_000, 20_000_000) };
+    // a third of the channels are set up and signed for through the protocol handler (wire messages)
+    let via = rng.chance(1, 3);
+    let vout = match rng.below(8) { 0 => 65535, 1 => 65536 + rng.below(3) as u32, 2 => 0, 3 => rng.range(256, 65534) as u32, _ => rng.below(20) as u32 };
     let sd = SetupD {
         ctype, outbound: rng.chance(1, 2), holder_delay, cp_delay,
         txid: rng.range(1, 250) as u8,
-        vout: match rng.below(8) { 0 => 65535, 1 => 65536 + rng.below(3) as u32, 2 => 0, 3 => rng.range(256, 65534) as u32, _ => rng.below(20) as u32 },
-        chan_value, mode, point: rng.range(10, 60) as u8,
+        vout: if via { vout % 65536 } else { vout }, // funding_txout is a u16 on the wire
+        chan_value, mode, point: rng.range(10, 60) as u8, via,
     };
     let feerate: u32 = match rng.below(8) { 0 => 0, 1 => 253, 2 => 1000, 3 => 7500, 4 => 25_000, 5 => rng.below(100_000) as u32, _ => rng.range(253, 5000) as u32 };
     let n = match rng.below(20) { 0 | 1 | 2 => 0, 3..=12 => rng.range(1, 5), 13..=17 => rng.range(6, 15), _ => rng.range(16, 30) } as usize;
@@ -1047,10 +1307,17 @@ fn gen_setup_content(rng: &mut Rng) -> (SetupD, ContentD) {
 
 /// Build the op lines of one case (consults the implementation for keys, ranks and policy verdicts).
 fn build_case(sd: &SetupD, c: &ContentD, rng: &mut Rng, tier: Tier) -> Option<Vec<String>> {
-    let live = fresh(sd, c).ok()?;
+    // Handler mode: if the handler refuses a setup that vls-core accepts for the same values, the case is still
+    // generated (keys from the core-level channel: same seed, peer and dbid give the same channel keys), so that
+    // the refusal shows up in the run instead of silently thinning the handler share.
+    let live = match fresh(sd, c) {
+        Ok(l) => l,
+        Err(_) if sd.via => fresh(&SetupD { via: false, ..sd.clone() }, c).ok()?,
+        Err(_) => return None,
+    };
     let (kt, obs) = keys_only(&live, sd);
     let mut ops = vec![
-        format!("setup {} {} {} {} {} {} {} {} {} {} {}", sd.ctype, if sd.outbound { 1 } else { 0 }, sd.holder_delay, sd.cp_delay, sd.txid, sd.vout, sd.chan_value, obs, if sd.mode == 2 { 0 } else { 1 }, sd.mode, sd.point),
+        format!("setup {} {} {} {} {} {} {} {} {} {} {} {}", sd.ctype, if sd.outbound { 1 } else { 0 }, sd.holder_delay, sd.cp_delay, sd.txid, sd.vout, sd.chan_value, obs, if sd.mode == 2 { 0 } else { 1 }, sd.mode, sd.point, if sd.via { 1 } else { 0 }),
         keys_line(&kt),
         content_line(c),
     ];
